@@ -50,4 +50,54 @@ def fixedDigits (b : Nat) : Nat → Nat → List Nat
   | 0, _ => []
   | w + 1, n => fixedDigits b w (n / b) ++ [n % b]
 
+
+/-! ### round 3: the grammar of the parsers, written with list operations only -/
+
+/-- the digit a character denotes (either case): its index in one of the two alphabets -/
+def charDigit (c : Byte) : Option Nat :=
+  match alphabetLower.findIdx? (fun ch => BitVec.ofNat 8 ch.toNat == c) with
+  | some d => some d
+  | none => alphabetUpper.findIdx? (fun ch => BitVec.ofNat 8 ch.toNat == c)
+
+/-- `c` is a digit of base `b` -/
+def isDigitOf (b : Nat) (c : Byte) : Bool :=
+  match charDigit c with
+  | some d => decide (d < b)
+  | none => false
+
+/-- the longest prefix of `s` made of digits of base `b` -/
+def numberPrefix (b : Nat) (s : List Byte) : List Byte := s.takeWhile (isDigitOf b)
+
+/-- its positional value -/
+def prefixValue (b : Nat) (s : List Byte) : Nat := ofDigits b ((numberPrefix b s).filterMap charDigit)
+
+/-- C `isspace` / `isdigit` in the "C" locale, as sets -/
+def spaceChars : List Byte := [0x20#8, 0x09#8, 0x0A#8, 0x0B#8, 0x0C#8, 0x0D#8]
+def decimalChars : List Byte := [0x30#8, 0x31#8, 0x32#8, 0x33#8, 0x34#8, 0x35#8, 0x36#8, 0x37#8, 0x38#8, 0x39#8]
+
+
+/-! ### round 3: the hex dump, position by position
+
+  `bytes` are the `len` bytes to dump, `addr` the numeric value of the pointer.  Position `i`
+  (0 ≤ i < 8·⌈len/8⌉) contributes: at the start of a row the address column `0x<16 hex digits>:`;
+  the cell `HH ` (or three blanks past the data); at the end of a row the ASCII column of the
+  eight positions of that row (the byte itself when it is printable, `.` otherwise, a blank
+  past the data) and CR LF. -/
+def dumpCellSpec (addr : Nat) (bytes : List Byte) (i : Nat) : List Byte :=
+  (if i % 8 = 0 then
+      [0x30#8, 0x78#8] ++ (fixedDigits 16 16 ((addr + i) % 2 ^ 64)).map (digitChar true) ++ [0x3A#8]
+    else [])
+  ++ (match bytes[i]? with
+      | some b => (fixedDigits 16 2 b.toNat).map (digitChar true) ++ [0x20#8]
+      | none => [0x20#8, 0x20#8, 0x20#8])
+  ++ (if i % 8 = 7 then
+        (List.range' (i - 7) 8).map (fun j =>
+          match bytes[j]? with
+          | some b => if 32 ≤ b.toNat ∧ b.toNat ≤ 126 then b else 0x2E#8
+          | none => 0x20#8) ++ [0x0D#8, 0x0A#8]
+      else [])
+
+def dumpSpec (addr : Nat) (bytes : List Byte) : List Byte :=
+  (List.range' 0 (8 * ((bytes.length + 7) / 8))).flatMap (dumpCellSpec addr bytes)
+
 end Igris.C07
